@@ -144,7 +144,9 @@ class Ext:
                attribute assignments: effects and re-bindings)
       fact_test f(fn, g, t, env, kt, kf) -> text      (truthiness test of a value whose Ty carries a `fact` attribute:
                a Boolean local holding the outcome of an isinstance test; used by the monadic backend pygal_m.py)
-      raise_   Gallina text of "an exception left the function" for the declared return type"""
+      raise_   Gallina text of "an exception left the function" for the declared return type
+      expr     f(fn, node, env) -> (g, Ty) | None      [srcrun] unit-specific expression forms, consulted by tr_expr for
+               every node that is not a bound access path (optional attribute)"""
 
     def __init__(self, **kw):
         self.calls, self.methods, self.attrs, self.compare, self.truthy = {}, {}, {}, {}, {}
@@ -164,6 +166,13 @@ def tr_expr(fn, node, env):
     p = path_of(node)
     if p is not None and p in env:
         return env[p]
+    # [srcrun] unit-specific expression forms (Ext.expr: displays, `x or None`, calls of a local, ...) - consulted
+    # before the built-in forms; returns None for "not mine"; units without the hook are unaffected
+    hook = getattr(fn.ext, "expr", None)
+    if hook is not None:
+        r = hook(fn, node, env)
+        if r is not None:
+            return r
     if isinstance(node, ast.Constant):
         v = node.value
         if v is None:
